@@ -254,7 +254,7 @@ func (c *ctx) shapeFacts() {
 	// local.go StoreChunk
 	fd = c.funcDecl(c.files, "LocalStore", "StoreChunk")
 	sh = c.callShape(fd, [][2]string{
-		{"os.MkdirAll", "MkdirAll"}, {"tempfile.NewMode", "TempFile"}, {"tmp.Write", "Write"}, {"tmp.Close", "Close"},
+		{"os.MkdirAll", "MkdirAll"}, {"tempfile.NewMode", "TempFile"}, {".Write", "Write"}, {".Close", "Close"},
 		{"os.Remove", "Remove"}, {"os.Rename", "Rename"}, {"os.Create", "Create"}, {"os.OpenFile", "OpenFile"}, {"ioutil.WriteFile", "WriteFile"}, {"os.WriteFile", "WriteFile"},
 		{"os.Stat", "Stat"}, {"os.Lstat", "Stat"}, {"s.HasChunk", "HasChunk"}, {"os.Link", "Link"}, {"os.Symlink", "Symlink"}})
 	c.lean.WriteString("/-- file operations of `LocalStore.StoreChunk`, in source order (a look at what is already there — Stat, HasChunk — would show up here: the chunk is written unconditionally, which is what a cache repair relies on) -/\n")
@@ -304,15 +304,32 @@ func (c *ctx) shapeFacts() {
 		{"tempfile.NewMode", "TempFile"}, {"os.Remove", "Remove"}, {"writeInplace", "Assemble"}, {"os.Rename", "Rename"}, {"os.Create", "Create"}, {"os.OpenFile", "OpenFile"}})
 	guarded := false
 	if fd != nil {
+		returns := func(b *ast.BlockStmt) bool {
+			for _, st := range b.List {
+				if _, ok := st.(*ast.ReturnStmt); ok {
+					return true
+				}
+			}
+			return false
+		}
+		// `if stats, err = writeInplace(…); err != nil { return … }`, or the assignment followed by `if err != nil { return … }`
 		walk(fd.Body, func(n ast.Node) bool {
-			ifs, ok := n.(*ast.IfStmt)
-			if !ok || ifs.Init == nil {
+			blk, ok := n.(*ast.BlockStmt)
+			if !ok {
 				return true
 			}
-			if strings.Contains(exprString(ifs.Init.(*ast.AssignStmt).Rhs[0]), "writeInplace") && strings.Contains(exprString(ifs.Cond), "err!=nil") {
-				for _, st := range ifs.Body.List {
-					if _, ok := st.(*ast.ReturnStmt); ok {
+			for i, st := range blk.List {
+				switch t := st.(type) {
+				case *ast.IfStmt:
+					if as, ok := t.Init.(*ast.AssignStmt); ok && len(as.Rhs) == 1 && strings.Contains(exprString(as.Rhs[0]), "writeInplace") &&
+						strings.Contains(exprString(t.Cond), "err!=nil") && returns(t.Body) {
 						guarded = true
+					}
+				case *ast.AssignStmt:
+					if len(t.Rhs) == 1 && strings.Contains(exprString(t.Rhs[0]), "writeInplace") && i+1 < len(blk.List) {
+						if ifs, ok := blk.List[i+1].(*ast.IfStmt); ok && ifs.Init == nil && exprString(ifs.Cond) == "err!=nil" && returns(ifs.Body) {
+							guarded = true
+						}
 					}
 				}
 			}
